@@ -1,7 +1,7 @@
 (* Script.v — the script language and its model interpreter.  The same
    scripts are interpreted against the real library by harness/elfio_harness.cpp;
    both print the canonical observation lines defined here. *)
-From ElfioV Require Import Bytes Mem Stream SectionData Strings Elfio Table Accessors.
+From ElfioV Require Import Bytes Mem Stream SectionData Strings Elfio Table Accessors Loader Layout Writer.
 Local Open Scope N_scope.
 
 Inductive sfield := SType | SFlags | SInfo | SLink | SAddralign | SEntsize | SAddr | SSize | SNameOff.
@@ -69,7 +69,24 @@ Inductive op :=
 | OpVdNum (k : N)
 | OpVdGet (k no : N)
 | OpHashElf (name : bytes)
-| OpHashGnu (name : bytes).
+| OpHashGnu (name : bytes)
+(* segments, load, save, observation *)
+| OpAddSeg
+| OpSegSet (j : N) (f : gfield) (v : N)
+| OpSegAdd (j i align : N)            (* add_section_index( i, align ) *)
+| OpSegAddSec (j i : N)               (* add_section( sections[i], sections[i]->get_addr_align() ) *)
+| OpXlat (entries : list (N * N * N))
+| OpLoad (file : bool) (lazy : bool) (content : bytes)
+| OpSave (cap : option N)
+| OpValidate
+| OpObsHdr
+| OpObsSec (i : N)
+| OpObsSeg (j : N)
+| OpSegData (j : N)
+| OpSegFree (j : N)
+| OpObsAll
+| OpAllocMax
+| OpDump.
 
 (* observation lines: a numeric tag, numbers, optionally a byte string *)
 Inductive obs :=
@@ -113,6 +130,17 @@ Definition T_VNNUM := 80.
 Definition T_VN := 81.       (* b 81 <k> <no> <ret> [version hash flags other] : file ; b 82 : dep *)
 Definition T_VNDEP := 82.
 Definition T_VDNUM := 85.
+Definition T_ADDSEG := 100.
+Definition T_LOAD := 101.    (* n 101 <ret> *)
+Definition T_SAVE := 102.    (* b 102 <ret> : bytes written *)
+Definition T_VALID := 103.   (* n 103 <overlap complaints> <segment complaints> *)
+Definition T_HDR := 104.     (* n 104 class enc elfver osabi abiver type machine version entry flags phoff shoff ehsize phentsize phnum shentsize shnum shstrndx *)
+Definition T_SEC := 105.     (* b 105 i type flags addr offset size link info addralign entsize nameoff : name *)
+Definition T_SEG := 106.     (* n 106 j type flags offset vaddr paddr filesz memsz align nmembers members... *)
+Definition T_SEGDATA := 107. (* b 107 j filesz : data | null *)
+Definition T_COUNTS := 108.  (* n 108 nsec nseg *)
+Definition T_ALLOCMAX := 109.
+Definition T_DUMP := 110.
 Definition T_HASH := 90.     (* n 90 <kind 0=sysv 1=gnu> <hash> *)
 Definition T_VD := 86.       (* b 86 <k> <no> <ret> [flags ndx hash] : dep *)
 
@@ -123,8 +151,8 @@ Inductive acc :=
 | AVs (a : vs_acc)
 | AVer (sec : N) (num : N).
 
-Record world := mkWorld0 { w_el : elfio; w_accs : list (N * acc) }.
-Definition mkWorld (el : elfio) : world := mkWorld0 el [].
+Record world := mkWorld0 { w_el : elfio; w_accs : list (N * acc); w_allocs : list N }.
+Definition mkWorld (el : elfio) : world := mkWorld0 el [] [].
 
 Fixpoint find_acc (l : list (N * acc)) (k : N) : option acc :=
   match l with
@@ -132,8 +160,8 @@ Fixpoint find_acc (l : list (N * acc)) (k : N) : option acc :=
   | (k', a) :: t => if k =? k' then Some a else find_acc t k
   end.
 Definition set_acc (w : world) (el : elfio) (k : N) (a : acc) : world :=
-  mkWorld0 el ((k, a) :: w_accs w).
-Definition keep (w : world) (el : elfio) : world := mkWorld0 el (w_accs w).
+  mkWorld0 el ((k, a) :: w_accs w) (w_allocs w).
+Definition keep (w : world) (el : elfio) : world := mkWorld0 el (w_accs w) (w_allocs w).
 
 Definition host_order : endian := LSB.    (* the machine the correspondence runs on *)
 
@@ -156,6 +184,172 @@ Definition sec_set (s : section) (f : sfield) (v : N) : section :=
 
 Definition need_sec (el : elfio) (i : N) : res section :=
   match get_sec el i with Some s => Ok s | None => Fault NullDeref end.
+
+Definition obs_hdr (el : elfio) : obs :=
+  match el_hdr el with
+  | None => ObN T_HDR [0; 0; 0; 0; 0; 0; 0; 0; 0; 0; 0; 0; 0; 0; wrap16 (lenN (el_segs el)); 0; wrap16 (lenN (el_secs el)); 0]
+  | Some h =>
+      let id k := nthN (e_ident h) k 0 in
+      ObN T_HDR [id 4; id 5; id 6; id 7; id 8; e_type h; e_machine h; e_version h; e_entry h; e_flags h;
+                 e_phoff h; e_shoff h; e_ehsize h; e_phentsize h; wrap16 (lenN (el_segs el)); e_shentsize h;
+                 wrap16 (lenN (el_secs el)); e_shstrndx h]
+  end.
+
+Definition obs_sec (i : N) (s : section) : obs :=
+  ObB T_SEC [i; sh_type s; sh_flags s; sh_addr s; sh_offset s; sh_size s; sh_link s; sh_info s;
+             sh_addralign s; sh_entsize s; sh_name s] (Some (s_name s)).
+
+Definition obs_seg (j : N) (g : segment) : obs :=
+  let members := firstnN (g_sections g) (seg_sections_num g) in
+  ObN T_SEG ([j; p_type g; p_flags g; p_offset g; p_vaddr g; p_paddr g; p_filesz g; p_memsz g; p_align g;
+              seg_sections_num g] ++ members).
+
+Definition obs_data (el : elfio) (i : N) : res (elfio * obs) :=
+  '(el1, p) <- el_sec_get_data junk0 el i ;;
+  match get_sec el1 i with
+  | None => Fault NullDeref
+  | Some s =>
+      match p with
+      | None => Ok (el1, ObB T_DATA [i; sh_size s] None)
+      | Some _ => bs <- rd p 0 (sh_size s) ;; Ok (el1, ObB T_DATA [i; sh_size s] (Some bs))
+      end
+  end.
+
+Definition obs_segdata (el : elfio) (j : N) : res (elfio * obs) :=
+  '(el1, p) <- el_seg_get_data el j ;;
+  match get_seg el1 j with
+  | None => Fault OobRead
+  | Some g =>
+      match p with
+      | None => Ok (el1, ObB T_SEGDATA [j; p_filesz g] None)
+      | Some _ => bs <- rd p 0 (p_filesz g) ;; Ok (el1, ObB T_SEGDATA [j; p_filesz g] (Some bs))
+      end
+  end.
+
+Fixpoint obs_all_secs (el : elfio) (i : N) (todo : list section) (acc : list obs) : res (elfio * list obs) :=
+  match todo with
+  | [] => Ok (el, acc)
+  | _ :: t =>
+      match get_sec el i with
+      | None => Fault NullDeref
+      | Some s =>
+          '(el1, d) <- obs_data el i ;;
+          obs_all_secs el1 (i + 1) t (acc ++ [obs_sec i s; d])
+      end
+  end.
+
+Fixpoint obs_all_segs (el : elfio) (j : N) (todo : list segment) (acc : list obs) : res (elfio * list obs) :=
+  match todo with
+  | [] => Ok (el, acc)
+  | _ :: t =>
+      match get_seg el j with
+      | None => Fault OobRead
+      | Some g =>
+          '(el1, d) <- obs_segdata el j ;;
+          obs_all_segs el1 (j + 1) t (acc ++ [obs_seg j g; d])
+      end
+  end.
+
+(* ---- the access pattern of dump::* (elfio_dump.hpp:884-1260): which
+   accessor is called with which index, which bytes are read ---- *)
+Fixpoint dump_symbols (fuel : list N) (el : elfio) (sec : N) (i n : N) : res elfio :=
+  if i <? n then
+    match fuel with
+    | [] => Fault Hang
+    | _ :: f => '(el1, _) <- get_symbol junk0 el sec i ;; dump_symbols f el1 sec (i + 1) n
+    end
+  else Ok el.
+
+Fixpoint dump_notes (fuel : list N) (el : elfio) (a : note_acc) (j n : N) : res elfio :=
+  if j <? n then
+    match fuel with
+    | [] => Fault Hang
+    | _ :: f => '(el1, _) <- note_get junk0 el a j ;; dump_notes f el1 a (j + 1) n
+    end
+  else Ok el.
+
+Fixpoint dump_dyn (fuel : list N) (el : elfio) (a : dyn_acc) (i n : N) : res elfio :=
+  if i <? n then
+    match fuel with
+    | [] => Fault Hang
+    | _ :: f =>
+        '(el1, a1, r) <- dyn_get_entry junk0 el a i ;;
+        '(el2, tag, _) <- dyn_raw_entry junk0 el1 (da_sec a1) i ;;
+        if tag =? DT_NULL then Ok el2 else dump_dyn f el2 a1 (i + 1) n
+    end
+  else Ok el.
+
+Definition data_fuel (el : elfio) (i : N) : list N :=
+  match get_sec el i with
+  | Some s => match s_data s with Some b => 0 :: 0 :: b | None => [0; 0] end
+  | None => [0; 0]
+  end.
+
+Definition dot_modinfo : bytes := [46; 109; 111; 100; 105; 110; 102; 111].
+
+Fixpoint dump_sections (el : elfio) (i : N) (todo : list section) (seen_modinfo : bool) : res elfio :=
+  match todo with
+  | [] => Ok el
+  | _ :: t =>
+      match get_sec el i with
+      | None => Fault NullDeref
+      | Some s =>
+          (* symbol_tables *)
+          el1 <- (if (sh_type s =? SHT_SYMTAB) || (sh_type s =? SHT_DYNSYM) then
+                    '(el0, _, s0) <- sec_data junk0 el i ;;
+                    dump_symbols (data_fuel el0 i) el0 i 0 (get_symbols_num el0 s0)
+                  else Ok el) ;;
+          (* notes (sections) *)
+          el2 <- (if sh_type s =? SHT_NOTE then
+                    '(el0, a) <- note_new junk0 el1 (NoteSec i) ;;
+                    dump_notes (0 :: na_starts a) el0 a 0 (wrap32 (lenN (na_starts a)))
+                  else Ok el1) ;;
+          (* modinfo: first section with that name *)
+          '(el3, seen) <- (if negb seen_modinfo && bytes_eqb (s_name s) dot_modinfo then
+                             '(el0, _) <- mod_new junk0 el2 i ;; Ok (el0, true)
+                           else Ok (el2, seen_modinfo)) ;;
+          (* dynamic_tags *)
+          el4 <- (if sh_type s =? SHT_DYNAMIC then
+                    '(el0, a1, n) <- dyn_entries_num junk0 el3 (mkDynAcc i 0) ;;
+                    dump_dyn (data_fuel el0 i) el0 a1 0 n
+                  else Ok el3) ;;
+          (* section_datas: sections 1.. that are not NOBITS: up to 64 bytes *)
+          el5 <- (if (0 <? i) && negb (sh_type s =? SHT_NOBITS) then
+                    '(el0, p) <- el_sec_get_data junk0 el4 i ;;
+                    match p, get_sec el0 i with
+                    | Some _, Some s0 => _ <- rd p 0 (N.min (sh_size s0) 64) ;; Ok el0
+                    | _, _ => Ok el0
+                    end
+                  else Ok el4) ;;
+          dump_sections el5 (i + 1) t seen
+      end
+  end.
+
+Fixpoint dump_segments (el : elfio) (j : N) (todo : list segment) : res elfio :=
+  match todo with
+  | [] => Ok el
+  | _ :: t =>
+      match get_seg el j with
+      | None => Fault OobRead
+      | Some g =>
+          el1 <- (if p_type g =? PT_NOTE then
+                    '(el0, a) <- note_new junk0 el (NoteSeg j) ;;
+                    dump_notes (0 :: na_starts a) el0 a 0 (wrap32 (lenN (na_starts a)))
+                  else Ok el) ;;
+          '(el2, p) <- el_seg_get_data el1 j ;;
+          el3 <- (match p, get_seg el2 j with
+                  | Some _, Some g0 => _ <- rd p 0 (N.min (p_filesz g0) 64) ;; Ok el2
+                  | _, _ => Ok el2
+                  end) ;;
+          dump_segments el3 (j + 1) t
+      end
+  end.
+
+Definition dump_all (el : elfio) : res elfio :=
+  el1 <- dump_sections el 0 (el_secs el) false ;;
+  dump_segments el1 0 (firstnN (el_segs el1) (wrap16 (lenN (el_segs el1)))).
+
+Fixpoint list_max (l : list N) : N := match l with [] => 0 | x :: t => N.max x (list_max t) end.
 
 Definition step (w : world) (o : op) : res (world * list obs) :=
   let el := w_el w in
@@ -195,6 +389,56 @@ Definition step (w : world) (o : op) : res (world * list obs) :=
       s <- need_sec el1 i ;;
       r <- get_string_raw p (sh_size s) (wrap32 idx) ;;
       Ok (mkWorld el1, [ObB T_STRGET [i; idx] r])
+  | OpAddSeg => '(el1, j) <- segments_add el ;; Ok (mkWorld el1, [ObN T_ADDSEG [j]])
+  | OpSegSet j f v =>
+      match get_seg el j with
+      | None => Fault OobRead
+      | Some g => Ok (mkWorld (upd_seg el j (seg_set g f v)), [])
+      end
+  | OpSegAdd j i align =>
+      match get_seg el j with
+      | None => Fault OobRead
+      | Some g => Ok (mkWorld (upd_seg el j (seg_add_section_index g i align)), [])
+      end
+  | OpSegAddSec j i =>
+      match get_seg el j, get_sec el i with
+      | Some g, Some s => Ok (mkWorld (upd_seg el j (seg_add_section_index g (s_index s) (sh_addralign s))), [])
+      | _, _ => Fault NullDeref
+      end
+  | OpXlat entries => Ok (mkWorld (with_xlat el (xlat_sort entries)), [])
+  | OpLoad file lazy content =>
+      '(el1, ok, al) <- load junk0 el (if file then FileBuf else StringBuf) content lazy ;;
+      (* load( file_name ) closes its stream after an eager load *)
+      let el2 := if file && negb lazy then with_stream el1 None else el1 in
+      Ok (mkWorld0 el2 (w_accs w) al, [ObN T_LOAD [b2n ok]])
+  | OpSave cap =>
+      '(el1, os, ok) <- save junk0 el (new_ostream cap) ;;
+      Ok (mkWorld el1, [ObB T_SAVE [b2n ok] (Some (os_bytes os))])
+  | OpValidate =>
+      let cs := validate el in
+      Ok (w, [ObN T_VALID [lenN (filter (fun c => match c with COverlap _ _ => true | _ => false end) cs);
+                           lenN (filter (fun c => match c with CSegAddr _ _ => true | _ => false end) cs)]])
+  | OpObsHdr => Ok (w, [obs_hdr el])
+  | OpObsSec i => s <- need_sec el i ;; Ok (w, [obs_sec i s])
+  | OpObsSeg j =>
+      match get_seg el j with
+      | None => Fault OobRead
+      | Some g => Ok (w, [obs_seg j g])
+      end
+  | OpSegData j => '(el1, o1) <- obs_segdata el j ;; Ok (mkWorld el1, [o1])
+  | OpSegFree j =>
+      match get_seg el j with
+      | None => Fault OobRead
+      | Some g => Ok (mkWorld (upd_seg el j (seg_free_data g)), [])
+      end
+  | OpObsAll =>
+      let nsec := wrap16 (lenN (el_secs el)) in
+      let nseg := wrap16 (lenN (el_segs el)) in
+      '(el1, o1) <- obs_all_secs el 0 (firstnN (el_secs el) nsec) [] ;;
+      '(el2, o2) <- obs_all_segs el1 0 (firstnN (el_segs el1) nseg) [] ;;
+      Ok (mkWorld el2, [obs_hdr el; ObN T_COUNTS [nsec; nseg]] ++ o1 ++ o2)
+  | OpAllocMax => Ok (w, [ObN T_ALLOCMAX [list_max (w_allocs w)]])
+  | OpDump => el1 <- dump_all el ;; Ok (mkWorld el1, [ObN T_DUMP [1]])
   | OpHashElf name => Ok (w, [ObN T_HASH [0; elf_hash (take_cstr name)]])
   | OpHashGnu name => Ok (w, [ObN T_HASH [1; elf_gnu_hash (take_cstr name)]])
   (* ---- symbols ---- *)
